@@ -21,7 +21,9 @@ import (
 	"strings"
 	"time"
 
+	"github.com/dgraph-io/badger"
 	"github.com/honeytrap/honeytrap/listener/agent"
+	"github.com/honeytrap/honeytrap/storage"
 	"golang.org/x/crypto/ssh"
 )
 
@@ -58,13 +60,41 @@ func readLineUntil(r *bufio.Reader, code string) error {
 	}
 }
 
+// c18DropKeys opens the store as honeytrap does (storage.MustDB options) and deletes the given keys: every item is stored in a
+// transaction of its own, so "the first of two items is there, the second is not" is exactly what a kill between them leaves.
+func c18DropKeys(datadir string, keys []string) error {
+	opts := badger.DefaultOptions
+	opts.Dir = filepath.Join(datadir, "badger.db")
+	opts.ValueDir = opts.Dir
+	for _, fn := range storage.PlatformOptions {
+		fn(&opts)
+	}
+	db, err := badger.Open(opts)
+	if err != nil {
+		return err
+	}
+	defer db.Close()
+	return db.Update(func(txn *badger.Txn) error {
+		for _, k := range keys {
+			if err := txn.Delete([]byte(k)); err != nil {
+				return err
+			}
+		}
+		return nil
+	})
+}
+
 func c18Main(args []string) error {
 	fs := flag.NewFlagSet("c18", flag.ExitOnError)
 	datadir := fs.String("datadir", "", "data directory (persists across starts)")
 	svcs := fs.String("services", "ssh", "comma separated: ssh,ftp,smtp,ldap,agent")
 	out := fs.String("out", "", "identity json")
+	drop := fs.String("dropkeys", "", "no start: remove these keys (namespace.key, comma separated) from the store of the data directory - the state a kill between two stored items leaves")
 	fs.Parse(args)
 	quietLogs()
+	if *drop != "" {
+		return c18DropKeys(*datadir, strings.Split(*drop, ","))
+	}
 	labDataOverride = *datadir
 	defer cleanupScratch()
 	enabled := map[string]bool{}
